@@ -1,5 +1,147 @@
 import ZoektModel.Basic.Proto
+import ZoektModel.C15.Spec
 namespace ZoektModel.C15
-/-- stub: no model driver for C15 yet -/
-def main : IO Unit := ZoektModel.Proto.runLines (fun _ => ZoektModel.Proto.badCase "no model driver for C15")
+open ZoektModel ZoektModel.Proto
+
+def hexToString? (s : String) : Option String := do
+  let b ← hexToBytes? s
+  String.fromUTF8? b.toByteArray
+
+def stringToHex (s : String) : String := bytesToHex s.toUTF8.toList
+
+/-- tree tokens separated by `;`: `D<nameHex>` … `E`, `F<nameHex>:<contentHex>`, `L<nameHex>:<targetHex>`, `O<nameHex>` -/
+partial def parseNodes (toks : List String) (acc : List Node) : Option (List Node × List String) :=
+  match toks with
+  | [] => some (acc.reverse, [])
+  | t :: rest =>
+    if t == "E" then some (acc.reverse, rest) else
+    let kind := t.front
+    let body := (t.drop 1).toString
+    if kind == 'D' then do
+      let nm ← hexToString? body
+      let (kids, rest') ← parseNodes rest []
+      parseNodes rest' (Node.dir nm kids :: acc)
+    else if kind == 'O' then do
+      let nm ← hexToString? body
+      parseNodes rest (Node.other nm :: acc)
+    else if kind == 'F' || kind == 'L' then
+      match body.splitOn ":" with
+      | [n, c] => do
+        let nm ← hexToString? n
+        let c ← hexToBytes? c
+        parseNodes rest ((if kind == 'F' then Node.file nm c else Node.symlink nm c) :: acc)
+      | _ => none
+    else none
+
+def parseTree (s : String) : Option Node :=
+  match parseNodes (s.splitOn ";") [] with
+  | some ([n], []) => some n
+  | _ => none
+
+def parseStrList (s : String) : Option (List String) :=
+  if s == "-" then some [] else (s.splitOn ",").mapM hexToString?
+
+def renderStored : Stored → String
+  | .bytes c => "b" ++ bytesToHex c
+  | .skipped w => "!" ++ w.tag
+
+def renderDoc (name : String) (st : Stored) : String := stringToHex name ++ ":" ++ renderStored st
+
+def renderDocs (l : List String) : String := showList id (l.mergeSort leStr)
+
+def parseDocs (s : String) : List String := if s == "-" then [] else s.splitOn ","
+
+def parseMembers (s : String) : Option (List Member) :=
+  if s == "-" then some [] else
+  (s.splitOn ",").mapM fun e =>
+    match e.splitOn ":" with
+    | [k, n, c] => do
+      let kind ← (match k with
+        | "r" => some MKind.reg | "d" => some MKind.dir | "s" => some MKind.symlink
+        | "h" => some MKind.hardlink | "o" => some MKind.other | _ => none)
+      let nm ← hexToString? n
+      let c ← hexToBytes? c
+      pure ⟨kind, nm.toList, c⟩
+    | _ => none
+
+def mkIc (sizeMax : Nat) (rootAbs : String) : IdxCfg := ⟨sizeMax, fun _ => false, 20000, rootAbs⟩
+
+def archiveDocs (ic : IdxCfg) (docs : List ADoc) : List String :=
+  docs.map fun d =>
+    let nm := String.ofList d.name
+    renderDoc nm (builderAdd ic ⟨nm, d.content, .none⟩).stored
+
+def handle (line : String) : String :=
+  let (inp, impl) := splitCase line
+  match fields inp with
+  | ["walk", igd, root, tree] =>
+    match parseStrList igd, hexToString? root, parseTree tree with
+    | some ignoreDirs, some _, some t =>
+      let es := walk ⟨ignoreDirs, ignoreMatch (newIgnoreMatcher t)⟩ t
+      answer (showList (fun (e : Entry) =>
+        s!"{stringToHex (relStr e.path)}:{e.node.payload.length}:{showBool e.node.isSymlink}") es)
+    | _, _, _ => badCase "walk fields"
+  | ["dir", igd, sizeMax, large, root, tree] =>
+    match parseStrList igd, sizeMax.toNat?, parseStrList large, hexToString? root, parseTree tree with
+    | some ignoreDirs, some sm, some largeNames, some rootAbs, some t =>
+      -- `Options.IgnoreSizeMax` (doublestar patterns) is a parameter of the model: the harness lists the names it accepts
+      let ic : IdxCfg := { mkIc sm rootAbs with largeOk := fun nm => largeNames.contains nm }
+      let docs := indexArg ignoreDirs ic t
+      let model := "ok " ++ renderDocs (docs.map fun d => renderDoc d.name d.stored)
+      match fields impl with
+      | [cls, idocs] =>
+        if cls != "ok" then specFail model ("dir-" ++ cls)
+        else if t.isDir then
+          let wc : WalkCfg := ⟨ignoreDirs, ignoreMatch (newIgnoreMatcher t)⟩
+          let expected := (specDirDocs wc ic t).map fun ns => renderDoc ns.1 ns.2
+          if checkDir expected (parseDocs idocs) then answer model else specFail model "dir-docs"
+        else answer model
+      | _ => badCase "dir impl"
+    | _, _, _, _, _ => badCase "dir fields"
+  | ["ign", file, path] =>
+    match hexToBytes? file, hexToString? path with
+    | some f, some p => answer (showBool (ignoreMatch (parseIgnoreFile (bytesToChars f)) p))
+    | _, _ => badCase "ign fields"
+  | ["strip", name, count] =>
+    match hexToString? name, count.toInt? with
+    | some n, some c =>
+      let model := stringToHex (String.ofList (stripComponents n.toList c))
+      -- spec on the implementation's answer
+      if stringToHex (String.ofList (specStrip n.toList c.toNat)) == impl then answer model
+      else specFail model "strip-spec"
+    | _, _ => badCase "strip fields"
+  | ["members", ms] =>
+    match parseMembers ms with
+    | some ms =>
+      let rec drain (fuel : Nat) (l : List Member) : List Member :=
+        match fuel with
+        | 0 => []
+        | f + 1 => match nextFile l with
+          | none => []
+          | some (m, r) => m :: drain f r
+      answer (showList (fun (m : Member) => s!"{stringToHex (String.ofList m.name)}:{bytesToHex m.content}")
+        (drain (ms.length + 1) ms))
+    | none => badCase "members fields"
+  | ["arch", strip, sizeMax, ms] =>
+    match strip.toInt?, sizeMax.toNat?, parseMembers ms with
+    | some strip, some sm, some ms =>
+      let ic := mkIc sm ""
+      let out := index strip ms
+      let model := match out with
+        | .ok docs => "ok " ++ renderDocs (archiveDocs ic docs)
+        | o => o.cls ++ " -"
+      match fields impl with
+      | [cls, idocs] =>
+        let expected := (specArchiveDocs strip ms).map fun d =>
+          let nm := String.ofList d.name
+          renderDoc nm (specStored ic nm d.content)
+        if cls == "panic" then
+          specFail model (if (ms.all fun m => m.kind != .reg) then "archive-panic:no-regular-member" else "archive-panic")
+        else if checkArchive expected cls (parseDocs idocs) then answer model
+        else specFail model "archive-docs"
+      | _ => badCase "arch impl"
+    | _, _, _ => badCase "arch fields"
+  | _ => badCase "op"
+
+def main : IO Unit := runLines handle
 end ZoektModel.C15
